@@ -2,6 +2,7 @@ package json
 
 import (
 	"bytes"
+	"errors"
 	"github.com/go-json-experiment/json/internal/jsonopts"
 	"github.com/go-json-experiment/json/internal/zzverif/vrt"
 	"github.com/go-json-experiment/json/internal/zzverif/zzspec"
@@ -107,9 +108,12 @@ func VerifC03Intern(n int, sameLen bool) {
 // VerifC03Route: the same tree whichever route is taken through the real Unmarshal:
 // target 0: *any (specialised fast path); 1: *any with AllowDuplicateNames(true) (the fast
 // path is disabled: generic interface/map/slice arshalers through reflection); 2: a
-// map[string]any target; 3: a []any target; 4: UnmarshalRead from a reader into *any.
+// map[string]any target; 3: a []any target; 4: UnmarshalRead from a reader into *any; 5: a named
+// empty interface; 6: *any with a declining UnmarshalFromFunc for *any.
 // Accepted iff the text is valid (and an object/array for the typed targets); on acceptance
 // the value equals the reference tree.
+type zz03Named interface{}
+
 func VerifC03Route(tmpl string, target int) {
 	b := vrt.Template("b", tmpl)
 	valid := zzspec.ValidText(b, true, true, 10000)
@@ -139,6 +143,12 @@ func VerifC03Route(tmpl string, target int) {
 		if s != nil {
 			got = s
 		}
+	case 5: // a named empty interface holding nil
+		var n zz03Named
+		err = Unmarshal(b, &n)
+		got = n
+	case 6: // a caller-supplied function for *any that always declines: switches the code path, not the meaning
+		err = Unmarshal(b, &got, WithUnmarshalers(UnmarshalFromFunc(func(*jsontext.Decoder, *any) error { return errors.ErrUnsupported })))
 	default:
 		err = UnmarshalRead(bytes.NewReader(b), &got)
 	}
